@@ -1231,13 +1231,19 @@ class Context:
             MemoryLimitError: If memory limit is exceeded
             TimeLimitError: If time limit is exceeded
         """
-        # Parse the code
-        parser = Parser(code)
-        ast = parser.parse()
+        try:
+            # Parse the code
+            parser = Parser(code)
+            ast = parser.parse()
 
-        # Compile to bytecode
-        compiler = Compiler()
-        compiled = compiler.compile(ast)
+            # Compile to bytecode
+            compiler = Compiler()
+            compiled = compiler.compile(ast)
+        except RecursionError:
+            # The parser and compiler recurse on nesting depth: refuse, don't crash
+            raise JSError(
+                "Program too large: expressions or statements are nested too deeply"
+            )
 
         # Execute
         vm = VM(memory_limit=self.memory_limit, time_limit=self.time_limit)
